@@ -25,7 +25,7 @@ from vf.core import h64
 
 PROP = "C20"
 SHARDS = {"quick": 8, "thorough": 16}
-TIME_CAP = {"quick": 42, "thorough": 720}
+TIME_CAP = {"quick": 38, "thorough": 720}
 RECURSION_LIMIT = 800
 REQUIRED = ["threads_started", "concurrent_calls", "overlap_first_use_calls", "overlap_in_analysis", "monitored_cache_writes",
             "hook_events", "schedules_executed", "schedules_parked", "injected_yields", "quiescence_truth_checks",
